@@ -449,6 +449,173 @@ Section RepeatP.
     destruct (rev ly) as [|[root count] rest]; [cbn [wp]; split; lia|].
     destruct (negb match rest with [] => true | _ :: _ => false end || negb (count =? 1)); cbn [wp]; split; lia.
   Qed.
+
+  (* ---------- identities name nodes (idf) ---------- *)
+  (* conjunction rule for wp (local copy; holds for every program, Par included) *)
+  Lemma wp_conj_rp {A} R (m : prog A) : forall (Q1 Q2 : outcome A -> state -> Prop) s,
+    wp R m Q1 s -> wp R m Q2 s -> wp R m (fun o s' => Q1 o s' /\ Q2 o s') s.
+  Proof.
+    induction m as [A a|A e|A c|A k IH|A i k IH|A i d k IH|A p IHp q IHq k IHk|A t k IH];
+      cbn [wp]; intros Q1 Q2 s H1 H2; auto; try solve [intros d Hr; apply IH; auto].
+    eapply wp_mono; [|apply (IHp _ _ s H1 H2)]. intros [a|e|c] s1 [Ha Hb]; auto.
+    eapply wp_mono; [|apply (IHq _ _ s1 Ha Hb)]. intros [b|e|c] s2 [Hc Hd]; auto.
+  Qed.
+
+  (* ts is a set of trees with consistent identities, all in [lo, hi) *)
+  Definition good (lo hi : positive) (ts : list tree) : Prop :=
+    idf ts /\ forall t, In t ts -> ids_in lo hi t.
+
+  Lemma good_nil lo hi : good lo hi [].
+  Proof. split; [intros t1 t2 u v []|intros t []]. Qed.
+  Lemma good_subset lo hi ts ts' : (forall t, In t ts' -> In t ts) -> good lo hi ts -> good lo hi ts'.
+  Proof.
+    intros Hsub (Hidf & Hids). split.
+    - intros t1 t2 u v Ht1 Ht2. apply Hidf; apply Hsub; assumption.
+    - intros t Ht. apply Hids, Hsub, Ht.
+  Qed.
+  Lemma good_mono lo hi hi' ts : (hi <= hi')%positive -> good lo hi ts -> good lo hi' ts.
+  Proof. intros Hh (Hidf & Hids). split; [exact Hidf|]. intros t Ht. eapply ids_in_mono; [exact Hh|]. apply Hids, Ht. Qed.
+
+  (* a new tree whose root identity is the next unused one and whose proper subtrees all occur in ts *)
+  Lemma good_add lo t ts : good lo (idof t) ts -> (lo <= idof t)%positive ->
+    (forall u, subt u t -> u = t \/ exists t0, In t0 ts /\ subt u t0) ->
+    good lo (Pos.succ (idof t)) (t :: ts).
+  Proof.
+    intros (Hidf & Hids) Hlo Hsub.
+    assert (Hcls : forall t1 u, In t1 (t :: ts) -> subt u t1 -> u = t \/ exists t0, In t0 ts /\ subt u t0).
+    { intros t1 u [<-|Hin] Hu; [apply Hsub; exact Hu|]. right. exists t1. split; assumption. }
+    assert (Hold : forall u, (exists t0, In t0 ts /\ subt u t0) -> (idof u < idof t)%positive).
+    { intros u (t0 & Hin & Hu). apply (Hids t0 Hin u Hu). }
+    split.
+    - intros t1 t2 u v Ht1 Ht2 Hu Hv Heq.
+      destruct (Hcls t1 u Ht1 Hu) as [->|Ou]; destruct (Hcls t2 v Ht2 Hv) as [->|Ov].
+      + reflexivity.
+      + apply Hold in Ov. lia.
+      + apply Hold in Ou. lia.
+      + destruct Ou as (t0 & Hin0 & Hu0). destruct Ov as (t0' & Hin0' & Hv0).
+        apply (Hidf t0 t0' u v); assumption.
+    - intros t1 Ht1 u Hu. destruct (Hcls t1 u Ht1 Hu) as [->|Ou].
+      + split; lia.
+      + destruct Ou as (t0 & Hin0 & Hu0). destruct (Hids t0 Hin0 u Hu0) as (Ha & Hb). split; lia.
+  Qed.
+
+  Lemma good_node lo j a b ts : good lo j ts -> In a ts -> In b ts -> (lo <= j)%positive ->
+    good lo (Pos.succ j) (Node j a b :: ts).
+  Proof.
+    intros Hg Ha Hb Hlo. apply (good_add lo (Node j a b) ts); [exact Hg|exact Hlo|].
+    intros u Hu. cbn [subt] in Hu. destruct Hu as [->|[Hu|Hu]]; [left; reflexivity|right; exists a; auto|right; exists b; auto].
+  Qed.
+  Lemma good_zero lo j d ts : good lo j ts -> (lo <= j)%positive -> good lo (Pos.succ j) (Zero j d :: ts).
+  Proof.
+    intros Hg Hlo. apply (good_add lo (Zero j d) ts); [exact Hg|exact Hlo|].
+    intros u Hu. cbn [subt] in Hu. destruct Hu as [->|[]]. left. reflexivity.
+  Qed.
+  Lemma good_leaf lo j v ts : good lo j ts -> (lo <= j)%positive -> good lo (Pos.succ j) (Leaf j v :: ts).
+  Proof.
+    intros Hg Hlo. apply (good_add lo (Leaf j v) ts); [exact Hg|exact Hlo|].
+    intros u Hu. cbn [subt] in Hu. destruct Hu as [->|[]]. left. reflexivity.
+  Qed.
+  Lemma good_packed lo j vs ts : good lo j ts -> (lo <= j)%positive -> good lo (Pos.succ j) (Packed j vs :: ts).
+  Proof.
+    intros Hg Hlo. apply (good_add lo (Packed j vs) ts); [exact Hg|exact Hlo|].
+    intros u Hu. cbn [subt] in Hu. destruct Hu as [->|[]]. left. reflexivity.
+  Qed.
+
+  Ltac add_zero G j d G' := pose proof (good_zero _ j d _ G ltac:(lia)) as G'.
+  Ltac add_node G j a b G' :=
+    pose proof (good_node _ j a b _ G ltac:(cbn [In]; tauto) ltac:(cbn [In]; tauto) ltac:(lia)) as G'.
+  Ltac finish_good G :=
+    split; [lia|]; intros ly' E; injection E as <-; cbn [map fst];
+    (eapply good_subset; [|exact G]); intros t; cbn [In]; tauto.
+
+  Definition good_post (lo : positive) : outcome (@layer T) -> state -> Prop :=
+    fun o s' => (lo <= next s')%positive /\ forall ly', o = Ok ly' -> good lo (next s') (map fst ly').
+
+  Lemma repeat_step_good R lo k (ly : @layer T) s :
+    (lo <= next s)%positive -> good lo (next s) (map fst ly) ->
+    wp R (repeat_step k ly) (good_post lo) s.
+  Proof.
+    intros Hlo G. unfold good_post.
+    destruct ly as [|[a c] [|[b c2] [|e l]]]; cbn [repeat_step wp map fst] in *;
+      try (split; [lia|]; intros ly' E; discriminate E).
+    - destruct (c =? 1); [|destruct (c mod 2 =? 0)];
+        cbn [wp bind mk_zero mk_node fresh next bump memo].
+      + add_zero G (next s) k G1. add_node G1 (Pos.succ (next s)) a (@Zero T (next s) k) G2.
+        finish_good G2.
+      + add_node G (next s) a a G1. finish_good G1.
+      + add_node G (next s) a a G1. add_zero G1 (Pos.succ (next s)) k G2.
+        add_node G2 (Pos.succ (Pos.succ (next s))) a (@Zero T (Pos.succ (next s)) k) G3.
+        finish_good G3.
+    - destruct (negb (c2 =? 1)); [cbn [wp]; split; [lia|]; intros ly' E; discriminate E|].
+      destruct (c =? 1); [|destruct (c mod 2 =? 0)];
+        cbn [wp bind mk_zero mk_node fresh next bump memo].
+      + add_node G (next s) a b G1. finish_good G1.
+      + add_node G (next s) a a G1. add_zero G1 (Pos.succ (next s)) k G2.
+        add_node G2 (Pos.succ (Pos.succ (next s))) b (@Zero T (Pos.succ (next s)) k) G3.
+        finish_good G3.
+      + add_node G (next s) a a G1. add_node G1 (Pos.succ (next s)) a b G2.
+        finish_good G2.
+  Qed.
+
+  Lemma repeat_layers_good R lo : forall todo k (ly : @layer T) s,
+    (lo <= next s)%positive -> good lo (next s) (map fst ly) ->
+    wp R (repeat_layers todo k ly) (good_post lo) s.
+  Proof.
+    induction todo as [|t IH]; intros k ly s Hlo G; cbn [repeat_layers].
+    - cbn [wp]. split; [exact Hlo|]. intros ly' E. injection E as <-. exact G.
+    - apply wp_bind. eapply wp_mono; [|apply repeat_step_good; [exact Hlo|exact G]].
+      intros [ly1|e|c] s1 (Hlo1 & G1); cbn [lift]; try (split; [exact Hlo1|]; intros ly' E; discriminate E).
+      apply IH; [exact Hlo1|]. apply G1. reflexivity.
+  Qed.
+
+  Lemma init_layer_good R n s : wp R (init_layer n) (good_post (next s)) s.
+  Proof.
+    unfold init_layer, packed_repeat, good_post. cbv zeta.
+    pose proof (good_nil (next s) (next s)) as G.
+    destruct (is_packed ek).
+    - destruct (pf_of ek <? pf_of ek); [cbn [wp bind]; split; [lia|]; intros ly' E; discriminate E|].
+      destruct (pf_of ek <? n mod pf_of ek);
+        [cbn [wp bind fresh next bump]; split; [lia|]; intros ly' E; discriminate E|].
+      pose proof (good_packed _ (next s) (rep (pf_of ek)) _ G ltac:(lia)) as G1.
+      pose proof (good_packed _ (Pos.succ (next s)) (rep (n mod pf_of ek)) _ G1 ltac:(lia)) as G2.
+      destruct ((n / pf_of ek =? 0) && (n mod pf_of ek =? 0));
+        [|destruct (n mod pf_of ek =? 0); [|destruct (n / pf_of ek =? 0)]];
+        cbn [wp bind fresh next bump];
+        first [finish_good G2 | split; [lia|]; intros ly' E; discriminate E].
+    - cbn [wp bind fresh next bump].
+      pose proof (good_leaf _ (next s) x _ G ltac:(lia)) as G1. finish_good G1.
+  Qed.
+
+  (* unconditional: whenever repeat_tree returns a root, its identities name nodes *)
+  Lemma repeat_tree_idf capN depth n R s :
+    wp R (repeat_tree ek capN depth x n) (fun o _ => forall root, o = Ok root -> idf [root]) s.
+  Proof.
+    rewrite repeat_tree_unfold. destruct (capN <? n); [cbn [wp]; intros root E; discriminate E|].
+    apply wp_bind. eapply wp_mono; [|apply init_layer_good].
+    intros [ly0|e|c] s1 (Hlo1 & G1); cbn [lift]; try (intros root E; discriminate E).
+    apply wp_bind. eapply wp_mono; [|apply repeat_layers_good; [exact Hlo1|apply G1; reflexivity]].
+    intros [ly|e|c] s2 (Hlo2 & G2); cbn [lift]; try (intros root E; discriminate E).
+    specialize (G2 ly eq_refl).
+    destruct (rev ly) as [|[root count] rest] eqn:Erev; [cbn [wp]; intros root E; discriminate E|].
+    destruct (negb match rest with [] => true | _ :: _ => false end || negb (count =? 1));
+      cbn [wp]; intros root' E; [discriminate E|]. injection E as <-.
+    assert (Hin : In root (map fst ly)).
+    { apply (in_map fst ly (root, count)). apply in_rev. rewrite Erev. left. reflexivity. }
+    apply (good_subset _ _ _ [root]) in G2; [exact (proj1 G2)|].
+    intros t [<-|[]]. exact Hin.
+  Qed.
+
+  Theorem repeat_canon_idf capN depth n R s : 1 <= n -> n <= capN -> capN <= cap depth ->
+    wp R (repeat_tree ek capN depth x n) (fun o s' => exists root, o = Ok root /\
+       shape root = canon depth (rep n) /\ alloc_only s s' /\ fresh_or_from s s' [] root /\
+       N.pos (next s') <= N.pos (next s) + 3 * N.of_nat depth + 2 /\ idf [root]) s.
+  Proof.
+    intros Hn Hcap Hd.
+    eapply wp_mono; [|apply wp_conj_rp; [apply (repeat_canon_full capN depth n R s Hn Hcap Hd)|apply repeat_tree_idf]].
+    intros o s' ((root & -> & Hsh & Ha & Hf & Hc) & Hidf). exists root.
+    split; [reflexivity|]. split; [exact Hsh|]. split; [exact Ha|]. split; [exact Hf|]. split; [exact Hc|].
+    apply Hidf. reflexivity.
+  Qed.
 End RepeatP.
 
 (* ---------- exported statements ---------- *)
@@ -508,3 +675,5 @@ Print Assumptions repeat_too_long.
 Print Assumptions repeat_nodes.
 Print Assumptions repeat_tree_count.
 Print Assumptions repeat_canon_list_depth.
+Print Assumptions repeat_canon_idf.
+Print Assumptions repeat_tree_idf.
